@@ -55,6 +55,10 @@ type RedisOutput struct {
 	bisyncMissRunID string
 
 	outFilter *filter.RedisKeyFilter
+	// bisyncNsFilter rejects the bisync control keys (marker, latest, commit, index, rdb records) that a
+	// source which is itself a bisync site carries. It is applied next to outFilter by the plain parser and
+	// the snapshot loops; the bisync parser needs to see the markers and drops control commands itself
+	bisyncNsFilter *filter.RedisKeyFilter
 
 	newRedisConn          func(context.Context) (client.Redis, error)
 	newRedisConnToAddress func(context.Context, string) (client.Redis, error)
@@ -165,15 +169,9 @@ func NewRedisOutput(cfg RedisOutputConfig) *RedisOutput {
 	ro.outFilter.InsertCmdBlackList(filter.NoRouteCmds, true)
 	ro.outFilter.InsertCmdBlackList(cfg.Filter.CmdBlacklist, true)
 
-	reservedPrefixes := []string{config.CheckpointKey, config.NamespacePrefixKey}
-	if !ro.bisyncEnabled() {
-		// The bisync control keys (marker, latest, commit, index, rdb records) of a source that
-		// is itself a bisync site are bookkeeping too. A bisync link keeps them visible to its
-		// parser, which needs the markers to recognise mirrored transactions and drops the
-		// control commands itself.
-		reservedPrefixes = append(reservedPrefixes, checkpoint.BisyncKeyPrefix+":")
-	}
-	ro.outFilter.InsertPrefixKeyBlackList(reservedPrefixes)
+	ro.outFilter.InsertPrefixKeyBlackList([]string{config.CheckpointKey, config.NamespacePrefixKey})
+	ro.bisyncNsFilter = &filter.RedisKeyFilter{}
+	ro.bisyncNsFilter.InsertPrefixKeyBlackList([]string{checkpoint.BisyncKeyPrefix + ":"})
 	keyFilter := cfg.Filter.KeyFilter
 	if keyFilter != nil {
 		ro.outFilter.InsertPrefixKeyBlackList(keyFilter.PrefixKeyBlacklist)
@@ -469,7 +467,8 @@ func (ro *RedisOutput) rdbReplay(ctx context.Context, pipe <-chan *rdb.BinEntry)
 			}
 
 			if ro.outFilter.FilterKey(util.BytesToString(e.Key)) ||
-				ro.outFilter.FilterSlot(util.BytesToString(e.Key)) {
+				ro.outFilter.FilterSlot(util.BytesToString(e.Key)) ||
+				ro.bisyncNsFilter.FilterKey(util.BytesToString(e.Key)) {
 				filterOut = true
 			}
 		}
@@ -838,6 +837,9 @@ func (ro *RedisOutput) parseAofCommand(replayQuit usync.WaitCloser, reader *bufi
 		}
 
 		newArgv, reject = ro.outFilter.FilterCmdKey(sCmd, argv)
+		if !reject {
+			newArgv, reject = ro.bisyncNsFilter.FilterCmdKey(sCmd, newArgv)
+		}
 		if (bypass && !passBracket) || reject {
 			ro.filterCounterAdd(1)
 			continue
